@@ -207,6 +207,19 @@ PROPS = {
   'sim': ['simsock', 'fakecurl', 'simclock'],
   'essential_classes': ['mode:random-chunks', 'mode:close-at-offset', 'mode:reset-at-offset', 'mode:blocking-chunks', 'mode:blocking-truncated', 'mode:cut-inside-request-stream', 'eintr-injected', 'split-inside-header', 'request-on-fresh-connection', 'request-cut-short-by-connection-end', 'baseline-with-completed-responses'],
   'assumptions': ['simulated socket semantics as documented in sim/simnet.hpp'],
+ }, 'C15': {
+  'technique': 'exhaustive outcome/order table + rapidcheck for configuration sets, over simulated endpoints; oracle = first-valid-wins model and a reference fold',
+  'level_text': 'A high-availability signing service with 1..3 simulated endpoints is driven through every combination of per-endpoint outcomes (valid reply, error status, error PDU, timeout, connection refused, closed) and every arrival order for one request (exhaustive), '
+                'and through a two-request history in which one endpoint rejects the second request with cache-full: the request must be completed exactly once, with the first valid response in arrival order when one exists and with an error only after every endpoint it was forwarded to failed; '
+                'other endpoints\' errors may appear only as error notices. Pushed configurations with absent / in-range / far out-of-range field values are delivered in every permutation to signing and extending HA services; the consolidated values must equal a reference fold over the in-range values and be identical for every permutation.',
+  'level_note': 'Trusted: sim/ (sockets, clock), ref/pdu.cpp, the model in harness/C15.cpp. Boundary values of the ranges themselves are not generated (the statement says boundary-distant).',
+  'rule': 'exhaustive: (6 outcomes)^k x arrival orders for k = 1..3; rapidcheck: configuration sets (3 endpoints x 5 fields x {absent, 4 in-range values, out-of-range values}) x all permutations, and the cache-full history. '
+          'Non-trivial = >= 2 endpoints with different outcomes, or a configuration set containing an out-of-range value; distinct = distinct (outcome vector, order) / configuration set.',
+  'quick': {'cases': 6400, 'max_size': 150, 'exhaustive': True, 'wall_s': 1200},
+  'thorough': {'cases': 32000, 'max_size': 200, 'exhaustive': True, 'wall_s': 3400},
+  'sim': ['simsock', 'fakecurl', 'simclock'],
+  'essential_classes': ['single:response', 'single:all-failed', 'error-notice-seen', 'two-requests:cache-full-on-one-endpoint', 'config:extending', 'config:signing', 'config:with-out-of-range-value', 'endpoints:3'],
+  'assumptions': ['simulated socket semantics as documented in sim/simnet.hpp'],
  },
 }
 
